@@ -18,6 +18,8 @@ DISPATCHER_ATTRS = ['cause', 'effects', 'complete_channels', 'success_channels',
 RUNTIME_ATTRS = {'success_channels', 'node_call_id', 'node_sock'}   # set by Protocol itself on a received event
 ECHO = ['e0', 'e1', 'e2']
 EXCL_STD = ['__class__', '__delattr__', '__dict__', '__dir__', '__doc__', '__eq__', '__format__', '__ge__', '__getattribute__', '__getitem__', '__getstate__', '__gt__', '__hash__', '__init__', '__init_subclass__', '__le__', '__lt__', '__module__', '__ne__', '__new__', '__reduce__', '__reduce_ex__', '__repr__', '__setattr__', '__setitem__', '__setstate__', '__sizeof__', '__str__', '__subclasshook__', '__weakref__', 'alert_done', 'args', 'cancel', 'cancelled', 'cause', 'channels', 'child', 'complete', 'complete_channels', 'create', 'effects', 'failure', 'handler', 'kwargs', 'name', 'node_call_id', 'node_sock', 'node_without_result', 'notify', 'parent', 'stop', 'stopped', 'success', 'success_channels', 'uid', 'value', 'waitingHandlers']
+NIL = ['nil']                # the handler runs and returns None
+GEN = ['gen']                # a generator handler yields the value; the event is finished in a later tick
 BOOM = ['boom', 'mix']      # a handler raises at once ('mix': another handler of the same event returns)
 LATE = ['boomgen']          # a generator handler raises after a yield
 ERRV = '<error>'            # stands for the (type, exception, traceback) value of a failed event (texts are not compared)
@@ -96,6 +98,18 @@ class AppB(Component):
         self.log.append(snapshot(event))
         return [event.name, list(args), dict(kwargs)]
 
+    @handler(*NIL, channel='*')
+    def _nil(self, event, *args, **kwargs):
+        self.log.append(snapshot(event))
+
+    @handler(*GEN, channel='*')
+    def _gen(self, event, *args, **kwargs):
+        self.log.append(snapshot(event))
+
+        def later():
+            yield [event.name, list(args), dict(kwargs)]
+        return later()
+
     @handler('boom', channel='*')
     def _boom(self, event, *args, **kwargs):
         self.log.append(snapshot(event))
@@ -151,7 +165,12 @@ def snapshot(e):
     if extra.get('complete_channels') == ('node_result',) and isinstance(extra['complete_channels'], tuple):
         extra.pop('complete_channels')
     return {'name': e.name, 'args': list(e.args), 'kwargs': dict(e.kwargs), 'channels': list(e.channels),
-            'success': bool(e.success), 'failure': bool(e.failure), 'notify': bool(e.notify), 'attrs': extra}
+            'success': _flag(e.success), 'failure': _flag(e.failure), 'notify': _flag(e.notify), 'attrs': extra}
+
+
+def _flag(x):
+    """the dispatcher tests these attributes and hands notify on to Value.inform: they must be booleans"""
+    return x if isinstance(x, bool) else ['not-a-bool', type(x).__name__]
 
 
 def mk_fw(spec):
@@ -359,6 +378,42 @@ def hostile_call(rng):
     return 'big-valid', d
 
 
+SURR = '\ud800'
+TYPES = [None, True, False, 0, 1, -3, 2 ** 40, '', 'st', 'a\x00b', SURR, 'x' + SURR + 'y', 'L' * 300, 'name', 'value',
+         'handler', 'notify', [], [1], ['a', 'b'], [[1], {'a': None}], {}, {'a': 1}, {'a': {'b': [1, 'c']}}, {'value': 1}]
+CALL_FIELDS = ['success', 'failure', 'notify', 'channels', 'args', 'kwargs', 'name', 'id', 'meta']
+VALUE_FIELDS = ['id', 'errors', 'value', 'meta']
+SAFE_IDS = [1000, 1001, 7777, '0', None, [1], {}, 'a\x00b']
+
+
+def typed_call(rng, late_ok=True):
+    """a well-formed call packet for a handler that returns a value / None / raises / is a generator, with ONE top-level
+    field replaced by a value of an arbitrary JSON type"""
+    names = ['e0', 'e1', 'nil', 'boom'] + (['gen', 'boomgen'] if late_ok else [])
+    name = rng.choice(names)
+    raising = name in ('boom', 'boomgen')
+    d = base_call(rng, rng.choice(SAFE_IDS if raising else SAFE_IDS + [True, False]))
+    d['name'] = name
+    f = rng.choice(CALL_FIELDS)
+    v = rng.choice(TYPES)
+    if f == 'meta' and isinstance(v, list) and v:
+        v = []                  # dict([...]) of a non-empty array: outside the model
+    if f == 'id' and raising and (v is True or v is False or (isinstance(v, int) and 0 <= v < 50)):
+        v = 7777                # the error answer must not hit a call in flight (its value is opaque)
+    d[f] = v
+    return 'typed-' + f, d, name in ('gen', 'boomgen') and f != 'name'
+
+
+def typed_value(rng, allow_true=True):
+    d = {'id': rng.choice([0, 1, 2]), 'errors': False, 'value': rng.choice([None, 1, 'v', [1, 2]]), 'meta': {}}
+    f = rng.choice(VALUE_FIELDS)
+    v = rng.choice(TYPES)
+    if f == 'errors' and v is True and not allow_true:
+        v = 1                   # exactly true marks the opaque error value of a failed event
+    d[f] = v
+    return 'vtyped-' + f, d
+
+
 def hostile_value(rng):
     d = {'id': rng.choice([0, 0, 1, 2, True, False, '0', None, [0], {}, 99]), 'errors': rng.choice([False, 1, 'e', None]),
          'value': rng.choice([None, 1, 'v', [1, 2], {'a': 1}, False]), 'meta': {}}
@@ -447,14 +502,26 @@ class C19(Prop):
             r = rng.random()
             if r < 0.45:
                 cases.append(self.gen_proto(rng, st, tier))
-            elif r < 0.70:
-                kind, d = hostile_call(rng)
+            elif r < 0.63:
+                if rng.random() < 0.5:
+                    kind, d, _ = typed_call(rng)
+                else:
+                    kind, d = hostile_call(rng)
                 if isinstance(d, bytes):
                     kind, d = 'plain', base_call(rng, 3)
                 st['load'] += 1
+                st['hostile_kinds'][kind] = st['hostile_kinds'].get(kind, 0) + 1
                 cases.append({'k': 'load', 'j': d, 'hk': kind})
+            elif r < 0.70:
+                st['run'] = st.get('run', 0) + 1
+                pk = []
+                for _ in range(rng.randint(1, 3)):
+                    kind, d, _ = typed_call(rng)
+                    st['hostile_kinds'][kind] = st['hostile_kinds'].get(kind, 0) + 1
+                    pk.append(list(json.dumps(d).encode() + b'~~~'))
+                cases.append({'k': 'run', 'pkts': pk})
             elif r < 0.82:
-                kind, d = hostile_value(rng)
+                kind, d = typed_value(rng) if rng.random() < 0.5 else hostile_value(rng)
                 if isinstance(d, bytes):
                     kind, d = 'v-plain', {'id': 0, 'errors': False, 'value': 1, 'meta': {'tag': 1}}
                 st['loadv'] += 1
@@ -531,11 +598,16 @@ class C19(Prop):
             raising(rng, events)
         ops = []
         mode = rng.random()
+        late_used = False       # at most one handler per case that finishes in a later tick (see raising())
         for i in range(nev):
             ops.append(['send', i])
             if hostile and rng.random() < 0.7:
                 for _ in range(rng.randint(1, 2)):
-                    kind, d = hostile_call(rng)
+                    if rng.random() < 0.5:
+                        kind, d, late = typed_call(rng, late_ok=not late_used)
+                        late_used = late_used or late
+                    else:
+                        kind, d = hostile_call(rng)
                     st['hostile_kinds'][kind] = st['hostile_kinds'].get(kind, 0) + 1
                     if isinstance(d, dict) and isinstance(d.get('channels'), (list, str)) and len(d['channels']) > 1:
                         d['channels'] = d['channels'][:1]   # one dispatch per channel: keep "once" observable
@@ -550,7 +622,7 @@ class C19(Prop):
                 if rng.random() < 0.5:
                     ops += [['ab', 0], ['bam', rng.choice([1, 2])]]
             if hostile and rng.random() < 0.4:
-                kind, d = hostile_value(rng)
+                kind, d = typed_value(rng, allow_true=False) if rng.random() < 0.5 else hostile_value(rng)
                 st['hostile_kinds'][kind] = st['hostile_kinds'].get(kind, 0) + 1
                 ops.append(['iba', list(wire(rng, d))])
         if big:
@@ -601,6 +673,8 @@ class C19(Prop):
             except AttributeError:
                 return {'r': 'abort'}
             return {'r': [v, ident, er, meta]}
+        if k == 'run':
+            return self._impl_run(c)
         if k == 'serial':
             sp = c['ev']
             e = mk_event(sp)
@@ -715,6 +789,41 @@ class C19(Prop):
                 'bufs': [len(getattr(prot_caller, '_Protocol__buffer', b'')),
                          len(getattr(prot_callee, '_Protocol__buffer', b''))]}
 
+    def _impl_run(self, c):
+        """the callee under the real Manager.run() in a thread: hostile packets, then an ordinary call"""
+        import time
+        mB = Manager()
+        nB = Node(port=1).register(mB)
+        app = AppB().register(mB)
+        mB.start()
+        S = 'SOCK'
+        probe = json.dumps({'id': 4242, 'name': 'e0', 'args': [['probe']], 'kwargs': {}, 'success': False, 'failure': False,
+                            'notify': False, 'channels': [], 'meta': {}}).encode() + b'~~~'
+        try:
+            for _ in range(300):
+                if mB._executing_thread is not None:
+                    break
+                time.sleep(0.005)
+            th = mB._executing_thread
+            mB.fire(connect(S, 'h', 2), nB.channel)
+            for pk in c['pkts']:
+                mB.fire(read(S, bytes(pk)), nB.channel)
+            mB.fire(read(S, probe), nB.channel)
+            tB = nB.server.server
+            for _ in range(600):
+                if any(b'4242' in d for d in list(tB.out)) or th is None or not th.is_alive():
+                    break
+                time.sleep(0.005)
+            alive = th is not None and th.is_alive() and mB._executing_thread is th
+            ran = len([x for x in list(app.log) if x['args'] == [['probe']]])
+            answered = any(b'"id": 4242' in d and b'"errors": false' in d for d in list(tB.out))
+        finally:
+            mB.stop()
+            th = mB._executing_thread or th
+            if th is not None:
+                th.join(3)
+        return {'alive': alive, 'probe_ran': ran, 'answered': answered}
+
     # ---------------------------------------------------------------- model
     def excl(self):
         cur = sorted(nutils.META_EXCLUDE)
@@ -722,6 +831,8 @@ class C19(Prop):
 
     def model_term(self, c):
         k = c['k']
+        if k == 'run':
+            return None
         if k == 'load':
             return 'obs_load %s %s' % (self.excl(), jt(c['j']))
         if k == 'loadv':
@@ -767,9 +878,9 @@ class C19(Prop):
                 ops.append('OBA %d%%nat' % op[1])
         fs = c['fws'] or [[], []]
         fr = c['fwr'] or [[], []]
-        return 'obs_proto %s %s %s %s %s %s %s %s %s %s %s (JStr %s) [%s]' % (
+        return 'obs_proto %s %s %s %s %s %s %s %s %s %s %s %s %s (JStr %s) [%s]' % (
             self.excl(), td, tl, nl(nprotocol.DELIMITER), strs(fs[0]), strs(fs[1]), strs(fr[0]), strs(fr[1]),
-            strs(ECHO), strs(BOOM), strs(LATE), nl('node_client_peer' if c.get('dir') == 's2c' else 'node'), '; '.join(ops))
+            strs(ECHO), strs(NIL), strs(GEN), strs(BOOM), strs(LATE), nl('node_client_peer' if c.get('dir') == 's2c' else 'node'), '; '.join(ops))
 
     def obs_for_model(self, c, obs):
         if isinstance(obs, dict) and '__crash__' in obs:
@@ -796,6 +907,12 @@ class C19(Prop):
             return None       # reported by the framework as "implementation raised"
         k = c['k']
         protected = EVENT_DIR | set(DISPATCHER_ATTRS)
+        if k == 'run':
+            if not obs['alive']:
+                return 'loop-dead: Manager.run() ended after the packets of the peer'
+            if obs['probe_ran'] != 1 or not obs['answered']:
+                return 'after the packets of the peer an ordinary call ran %d times, answered=%r' % (obs['probe_ran'], obs['answered'])
+            return None
         if k == 'load':
             if obs['r'] is None:
                 return None
@@ -803,6 +920,9 @@ class C19(Prop):
             bad = sorted(set(s['attrs']) & protected)
             if bad or any(a.startswith('__') for a in s['attrs']):
                 return 'hostile-meta: load_event let the peer set %r' % bad
+            for f in ('success', 'failure', 'notify'):
+                if not isinstance(s[f], bool):
+                    return 'hostile-flags: load_event left %s=%r (not a bool) on the event' % (f, c['j'].get(f))
             try:
                 hash(tuple(map(_freeze, s['channels'])))
             except TypeError:
@@ -844,7 +964,7 @@ class C19(Prop):
                 if runs:
                     return 'firewall: event %d (%s) was rejected by a firewall but dispatched on the peer' % (i, sp['name'])
                 continue
-            handled = sp['name'] in ECHO or sp['name'] in BOOM or sp['name'] in LATE
+            handled = sp['name'] in ECHO + NIL + GEN + BOOM + LATE
             # packets injected by the harness may hit the ids of the calls in flight or abort a read that also
             # carries honest packets: there only "at most once" is required; the final probe is always strict
             strict = not hostile or sp['args'] == [['probe']]
@@ -870,7 +990,7 @@ class C19(Prop):
                 if not call['fin'] or not (call['err'] and call['err'][0]) or not call.get('verr'):
                     return 'remote-error-lost: handler of event %d raised on the peer; no error flag reached the sender' % i
                 continue
-            exp = [sp['name'], sp['args'], sp['kwargs']] if sp['name'] in ECHO else None
+            exp = [sp['name'], sp['args'], sp['kwargs']] if sp['name'] in ECHO + GEN else None
             if not call['fin']:
                 return 'event %d (%s): the sender never got a result' % (i, sp['name'])
             if call['val'] != exp:
@@ -881,6 +1001,9 @@ class C19(Prop):
             bad = sorted(set(s['attrs']) & protected)
             if bad:
                 return 'hostile-meta: dispatched event carries peer-set %r' % bad
+            for f in ('success', 'failure', 'notify'):
+                if not isinstance(s[f], bool):
+                    return 'hostile-flags: dispatched event has %s=%r (not a bool)' % (f, s[f])
         return None
 
     def finding_class(self, c, obs, what):
@@ -889,6 +1012,8 @@ class C19(Prop):
     def nontrivial(self, c, obs):
         if c['k'] == 'proto':
             return len(c['events']) >= 3 or any(op[0] in ('iab', 'iba', 'abp', 'bap', 'abm', 'bam') or (op[0] in ('ab', 'ba') and op[1]) for op in c['ops'])
+        if c['k'] == 'run':
+            return True
         if c['k'] in ('load', 'loadv'):
             return isinstance(obs, dict) and obs.get('r') is not None
         return True
